@@ -135,7 +135,15 @@ def iv_diff(a, b):
 
 
 ALL = [(0, SUR_LO - 1), (SUR_HI + 1, MAXCP)]
-BUILTINS = {}
+# the ASCII predicates are fixed by definition (documented ranges of char::is_ascii_*); all built-ins are
+# replaced by the ranges computed natively from the Rust predicates once the harness crate is built
+BUILTINS = {
+    'ascii': [(0, 127)], 'ascii_alphabetic': [(65, 90), (97, 122)], 'ascii_alphanumeric': [(48, 57), (65, 90), (97, 122)],
+    'ascii_control': [(0, 31), (127, 127)], 'ascii_digit': [(48, 57)], 'ascii_graphic': [(33, 126)],
+    'ascii_hexdigit': [(48, 57), (65, 70), (97, 102)], 'ascii_lowercase': [(97, 122)],
+    'ascii_punctuation': [(33, 47), (58, 64), (91, 96), (123, 126)], 'ascii_uppercase': [(65, 90)],
+    'ascii_whitespace': [(9, 10), (12, 13), (32, 32)],
+}
 
 
 def charset(r):
